@@ -149,6 +149,20 @@ CLAIMED["C02"] = (
     "DESIGN.md §3 C02",
     "The speedups (v_htmlescape) feature is outside the analysed configurations.  Restoration of the auto-escape mode after scoped constructs is C05.")
 
+CLAIMED["C15"] = (
+    "ordering rule on fallible &mut self mutators (mutation-before-failure), tier pairing rule, reviewed table of global mutable state, pool/flag hygiene rules, who-may-mutate rule for COW registries; thorough: compile_fail/compiles witness doctests",
+    "Static rule check: in every fallible `&mut self` mutator of LoaderStore/Environment no field mutation can be "
+    "followed by a step whose Err is returned (a failed add leaves the environment as it was); inserting into one "
+    "template tier evicts the other on that path, remove/clear act on both on every path; the set of statics and "
+    "thread-locals with interior mutability equals a reviewed table; pooled code-generator buffers are cleared on "
+    "every path before use and only their helpers touch the pools; the serialization flag is set only under its "
+    "resetting guard; filters/tests/globals are mutated only through Arc::make_mut.  Thorough adds rustc-checked "
+    "witnesses (Send+Sync, no mutation while a Template borrows the Environment, with compiling twins).  These are "
+    "the shape conditions that rule out history leaking into later renders; equality of renders across histories "
+    "and thread interleavings are not executed.",
+    "DESIGN.md §3 C15",
+    "Per-render state lives in State and the borrow checker forbids mutation during renders (witnessed).")
+
 NOT_APPLICABLE = {
 }
 
